@@ -244,14 +244,15 @@ REG = {
     },
     "C13": {
         "level": "fault_enumeration",
-        "technique": "fault enumeration by generated scenarios: seven disconnect points (before join, with q queued commands, on receiving a command, during a slow write callback, around timer expiry, during a duplicate-key refusal, while the session manager lags behind another terminal's full command queue) x close/reset x q in 0..6 x timeouts x seeded micro-delays, each in a fresh child process; oracle = process alive + every call returned within timeout + slack + a fresh terminal can be commanded afterwards",
+        "technique": "fault enumeration by generated scenarios: seven disconnect points (before join, with q queued commands, on receiving a command, during a slow write callback, around timer expiry, during a duplicate-key refusal, while the session manager lags behind another terminal's full command queue, and - TestC13Stall - a terminal that stopped reading, with a 12 MB command blocking its writer and the commands behind it blocking the session manager, leaving with FIN only / close / reset) x close/reset x q in 0..6 x timeouts x seeded micro-delays, each in a fresh child process; oracle = process alive + every call returned within timeout + slack + a fresh terminal can be commanded afterwards",
         "level_text": "Hard evidence: the child must exit normally and print its history (no 'send on closed channel', no deadlock). Soft evidence (re-run, 2 of 3): every in-flight SendActiveMessage call returned exactly once within timeout + 3 s with a response or an error; afterwards a fresh terminal (optionally re-using the victim's key) joins, is commanded and answers.",
         "level_note": "Schedule search, not schedule enumeration: the harness owns terminals, callers, fault points and barrier-released micro-delays but not the Go scheduler; a window narrower than the injected jitter can be missed.",
         "rule": "rapid over (fault point, q, timeouts, close mode, delays); non-trivial = at least one call in flight at the instant of the fault",
         "assumptions": ["loopback TCP; child process per scenario"],
-        "required_buckets": {"any": ["fault_before_join", "fault_close_with_queued", "fault_close_on_command", "fault_slow_write_callback", "fault_close_at_timeout", "fault_duplicate_key", "fault_manager_lag", "close_rst", "q_6", "key_reused_after_fault"]},
+        "required_buckets": {"any": ["fault_before_join", "fault_close_with_queued", "fault_close_on_command", "fault_slow_write_callback", "fault_close_at_timeout", "fault_duplicate_key", "fault_manager_lag", "close_rst", "q_6", "key_reused_after_fault", "end_half", "key_reused_after_stall"]},
         "parts": [
             rapid("sys", "TestC13", 50, 800, qs=12, ts=16),
+            rapid("sys", "TestC13Stall", 16, 240, qs=8, ts=16),
         ],
     },
     "C18": {
@@ -268,14 +269,15 @@ REG = {
     },
     "C11": {
         "level": "exploration",
-        "technique": "model-based testing of registry histories (rapid): barrier-sequenced histories of dial / hello / further messages / close / SendActiveMessage over 2..4 keys and 2..8 connections against a key->owner model, plus one racing group per history (two hellos on a free key, close racing a hello) judged by invariants and a routing probe",
+        "technique": "model-based testing of registry histories (rapid): barrier-sequenced histories of dial / hello / further messages / close / SendActiveMessage over 2..4 keys and 2..8 connections against a key->owner model, plus one racing group per history (two hellos on a free key, close racing a hello) judged by invariants and a routing probe; TestC11Stall: terminals saying hello while the session manager is stalled (0.2 s / 3.4 s) behind a terminal that stopped reading",
         "level_text": "Sequential steps are awaited through their own observable (reply received, EOF seen, call returned) so the model is exact: a hello on a free key is admitted (join callback with nil error, reply), on an owned key refused (join callback with error, no reply, EOF) without disturbing the owner; closing frees exactly that key; commands reach the owner's socket only; offline keys give the not-exist error within 1 s; messages with another phone never re-key; each successful join has exactly one leave with the same key on the same server connection. Racing groups: exactly one of two simultaneous hellos wins and the probe command lands on the winner.",
         "level_note": "Leave processing after a client-side close is awaited by a 40 ms pause; verdicts that depend on it are soft evidence (re-run, 2 of 3). Interleavings are sampled, not enumerated.",
         "rule": "rapid histories of 6..30 macro steps; non-trivial = the history contains a refused duplicate and a successful re-join of a key",
         "assumptions": ["loopback TCP; child process per scenario"],
-        "required_buckets": {"any": ["refused_duplicate", "rejoin_after_leave", "concurrent_group", "burst_of_six_commands"]},
+        "required_buckets": {"any": ["refused_duplicate", "rejoin_after_leave", "concurrent_group", "burst_of_six_commands", "stall_3400ms", "joiners_2"]},
         "parts": [
             rapid("sys", "TestC11", 40, 600, qs=12, ts=16),
+            rapid("sys", "TestC11Stall", 3, 30, qs=8, ts=16),
         ],
     },
     "C20": {
